@@ -160,6 +160,7 @@ func (idx *index) get(hash uint32, matchKey matchKeyFunc) error {
 
 func (idx *index) findInsertionBucket(newSlot slot, matchKey matchKeyFunc) (*slotWriter, bool, error) {
 	sw := &slotWriter{}
+	var freeSw *slotWriter // The first empty slot in the chain.
 	it := idx.newBucketIterator(idx.bucketIndex(newSlot.hash))
 	for {
 		b, err := it.next()
@@ -175,8 +176,12 @@ func (idx *index) findInsertionBucket(newSlot slot, matchKey matchKeyFunc) (*slo
 			sl := b.slots[i]
 			if sl.offset == 0 {
 				// Found an empty slot.
-				sw.slotIdx = i
-				return sw, false, nil
+				// Remember it, but keep looking for the key in the rest of the chain -
+				// a deletion may have left an empty slot in front of the key's bucket.
+				if freeSw == nil {
+					freeSw = &slotWriter{bucket: &b, slotIdx: i}
+				}
+				break
 			}
 			if newSlot.hash != sl.hash {
 				continue
@@ -194,6 +199,9 @@ func (idx *index) findInsertionBucket(newSlot slot, matchKey matchKeyFunc) (*slo
 		}
 		if b.next == 0 {
 			// No more buckets in the chain.
+			if freeSw != nil {
+				return freeSw, false, nil
+			}
 			sw.slotIdx = i
 			return sw, false, nil
 		}
